@@ -161,6 +161,18 @@ def suspicious(ex):
     return False
 
 
+def load_meta(path):
+    """Per-execution records written by the harness; a harness that died leaves a truncated last line."""
+    out = []
+    if os.path.exists(path):
+        for l in open(path):
+            try:
+                out.append(json.loads(l))
+            except ValueError:
+                pass
+    return out
+
+
 def collect(ctx, exe, mode, sc, arg, kind, executions, extra=(), timeout=900):
     """Run the harness; returns the per-execution meta records; appends (scenario, kind, history) to executions."""
     base = os.path.join(ctx.scratch, "%s.%s" % (sc["name"], kind))
@@ -175,7 +187,7 @@ def collect(ctx, exe, mode, sc, arg, kind, executions, extra=(), timeout=900):
         exs.append([{"e": "Crash", "rc": str(rc), "stderr": err[-300:]}])
     for e in exs:
         executions.append((sc["name"], kind, e))
-    return [json.loads(l) for l in open(meta)] if os.path.exists(meta) else []
+    return load_meta(meta)
 
 
 def run(ctx):
